@@ -10,6 +10,8 @@
 //!   int <new|neg|i32|str|bytes|big|json|key> <arg>
 //!                                        -> none | ok <to_str> <to_bytes hex|panic> <as_positive|~> <as_negative|~>
 //!                                           <as_i32|~> <from_str(to_str)> <from_bytes(to_bytes)> <serde_json round trip>
+//!   jint|jmint <text hex>              -> as `int`: Int::from_json / Mint::from_json with the text as the JSON string of the amount
+//!   jbn|jbi <text hex>, jval <coin text hex> <qty text hex> -> BigNum / BigInt / Value::from_json: ok … | err
 //!   mint <n> (a|s) <key 0..3> <amount> … -> ok <flags> e0 e1 e2 e3 | err <flags>      (e = ~ | <to_str>:<to_bytes hex>)
 //!   biz <z>                              -> ok <to_bytes hex|panic> <from_bytes(to_bytes)> <to_str hex> <from_str(to_str)>
 //!                                           <as_u64|~> <as_int|~> <is_zero 0/1>
@@ -88,8 +90,19 @@ fn show_int(i: &Int) -> String {
     let s2 = g(|| Int::from_str(&i.to_str()).map(|x| x.to_str()).unwrap_or("err".into()));
     let b2 = g(|| Int::from_bytes(i.to_bytes()).map(|x| x.to_str()).unwrap_or("err".into()));
     let j2 = g(|| { let j = serde_json::to_string(i).unwrap(); serde_json::from_str::<Int>(&j).map(|x| x.to_str()).unwrap_or("err".into()) });
-    format!("ok {} {} {} {} {} {} {} {}", z, cbor, pos, neg, i32_, s2, b2, j2)
+    // the JSON number written for a metadatum holding this Int (the three schemas must agree on the literal)
+    let mj = g(|| {
+        let m = TransactionMetadatum::new_int(i);
+        let plain = |schema| decode_metadatum_to_json_str(&m, schema).map(|t| t.trim().to_string()).map_err(|_| ());
+        let a = plain(MetadataJsonSchema::NoConversions);
+        let b = plain(MetadataJsonSchema::BasicConversions);
+        let c = plain(MetadataJsonSchema::DetailedSchema).map(|t| t.trim_start_matches("{\"int\":").trim_end_matches('}').trim().to_string());
+        if a != b || a != c { return "schemas-differ".into(); }
+        match a { Ok(t) => hex_or_dash(t.as_bytes()), Err(_) => "err".into() }
+    });
+    format!("ok {} {} {} {} {} {} {} {} {}", z, cbor, pos, neg, i32_, s2, b2, j2, mj)
 }
+fn json_str(text: &str) -> String { serde_json::to_string(text).unwrap() }
 
 fn policy_of(k: usize) -> (NativeScript, ScriptHash) {
     let kh = Ed25519KeyHash::from_bytes(vec![k as u8 + 1; 28]).unwrap();
@@ -145,6 +158,31 @@ fn exec(t: &[&str]) -> String {
                 _ => return "harness-badcase".into(),
             };
             match i { Some(i) => show_int(&i), None => "none".into() }
+        }
+        // serde / JSON entry points: the text is the content of the JSON string that carries the number
+        ["jint", h] => match Int::from_json(&json_str(&txt(h))) { Ok(i) => show_int(&i), Err(_) => "none".into() },
+        ["jmint", h] => {
+            let (_, pid) = policy_of(0);
+            let mut ma = MintAssets::new(); ma.insert(&mint_name(0), &Int::new_i32(1)).unwrap();
+            let mut m = Mint::new(); m.insert(&pid, &ma);
+            let js = m.to_json().unwrap().replace("\"1\"", &json_str(&txt(h)));
+            match Mint::from_json(&js) {
+                Ok(m2) => match m2.get(&pid).and_then(|l| l.get(0)).and_then(|a| a.get(&mint_name(0))) { Some(i) => show_int(&i), None => "none".into() },
+                Err(_) => "none".into(),
+            }
+        }
+        ["jbn", h] => match BigNum::from_json(&json_str(&txt(h))) { Ok(v) => format!("ok {}", v.to_str()), Err(_) => "err".into() },
+        ["jbi", h] => match BigInt::from_json(&json_str(&txt(h))) { Ok(v) => format!("ok {}", v.to_str()), Err(_) => "err".into() },
+        ["jval", hc, hq] => {
+            let mut ma = MultiAsset::new();
+            let pid = ScriptHash::from_bytes(vec![7u8; 28]).unwrap();
+            ma.set_asset(&pid, &AssetName::new(vec![0x78]).unwrap(), &BigNum::from(2u64));
+            let v = Value::new_with_assets(&BigNum::from(1u64), &ma);
+            let js = v.to_json().unwrap().replace("\"1\"", &json_str(&txt(hc))).replace("\"2\"", &json_str(&txt(hq)));
+            match Value::from_json(&js) {
+                Ok(v2) => format!("ok {} {}", v2.coin().to_str(), v2.multiasset().map(|m| m.get_asset(&pid, &AssetName::new(vec![0x78]).unwrap()).to_str()).unwrap_or("~".into())),
+                Err(_) => "err".into(),
+            }
         }
         ["mint", n, rest @ ..] => {
             let n: usize = n.parse().unwrap();
@@ -224,8 +262,9 @@ fn exec(t: &[&str]) -> String {
             let add = a.checked_add(&b);
             let undo = match &add { Ok(c) => g(|| show_rv(c.checked_sub(&b))), Err(_) => "-".into() };
             let cmp = a.compare(&b).map(|x| x.to_string()).unwrap_or("~".into());
-            format!("ok add={} rev={} sub={} csub={} undo={} cmp={} ord={}{}{}{} eq={} zero={}",
-                show_rv(add), g(|| show_rv(b.checked_add(&a))), g(|| show_rv(a.checked_sub(&b))), g(|| show_value(&a.clamped_sub(&b))), undo, cmp,
+            let msub = g(|| show_ma(&a.multiasset().unwrap_or(MultiAsset::new()).sub(&b.multiasset().unwrap_or(MultiAsset::new()))));
+            format!("ok add={} rev={} sub={} csub={} msub={} undo={} cmp={} ord={}{}{}{} eq={} zero={}",
+                show_rv(add), g(|| show_rv(b.checked_add(&a))), g(|| show_rv(a.checked_sub(&b))), g(|| show_value(&a.clamped_sub(&b))), msub, undo, cmp,
                 (a < b) as u8, (a <= b) as u8, (a > b) as u8, (a >= b) as u8, (a == b) as u8, a.is_zero() as u8)
         }
         ["val3", a, b, c] => {
@@ -506,6 +545,12 @@ fn gen(dir: &str) {
             let s = format!("{}{}", sign, b);
             let h = hex_or_dash(s.as_bytes());
             emit(&mut out, format!("int str {}", h));
+            emit(&mut out, format!("jint {}", h));
+            emit(&mut out, format!("jmint {}", h));
+            emit(&mut out, format!("jbn {}", h));
+            emit(&mut out, format!("jbi {}", h));
+            emit(&mut out, format!("jval {} 32", h));
+            emit(&mut out, format!("jval 31 {}", h));
             emit(&mut out, format!("int key {}", h));
             emit(&mut out, format!("bnstr {}", h));
             emit(&mut out, format!("bistr {}", h));
@@ -520,6 +565,18 @@ fn gen(dir: &str) {
         // only a JSON number literal reaches encode_number (anything else is a JSON syntax error or another JSON type)
         let s = json_number(&mut r);
         emit(&mut out, format!("int json {}", hex_or_dash(s.as_bytes())));
+    }
+    for _ in 0..120 * scale {
+        let s = dec_text(&mut r, true, false);
+        let h = hex_or_dash(s.as_bytes());
+        emit(&mut out, format!("jint {}", h));
+        emit(&mut out, format!("jmint {}", h));
+        let s = dec_text(&mut r, false, false);
+        emit(&mut out, format!("jbn {}", hex_or_dash(s.as_bytes())));
+        let s = dec_text(&mut r, true, true);
+        emit(&mut out, format!("jbi {}", hex_or_dash(s.as_bytes())));
+        let (s1, s2) = (dec_text(&mut r, false, false), dec_text(&mut r, false, false));
+        emit(&mut out, format!("jval {} {}", hex_or_dash(s1.as_bytes()), hex_or_dash(s2.as_bytes())));
     }
     for _ in 0..300 * scale {
         let bytes = match r.below(8) {
@@ -623,6 +680,24 @@ fn gen(dir: &str) {
     }
     // --- Value
     let pols = policies();
+    // ORDER-sensitive layouts under one policy: names a < b < c (AssetName order: length first), every subset on each side,
+    // quantities chosen so that each shared name ends smaller / equal / larger; a second policy keeps both sides non-empty
+    {
+        let p = &pols[1];
+        let q = &pols[3];
+        let triples: [[&str; 3]; 3] = [["61", "62", "63"], ["ff", "0001", "000002"], ["-", "00", "6161"]];
+        let lq = [10u64, 20, 30];
+        for (ti, names3) in triples.iter().enumerate() {
+            for sl in 0..8u32 { for sr in 0..8u32 {
+                if ti > 0 && (sl + sr) % 3 != 0 { continue; }                      // full 8x8 grid for the first triple, a third of it for the others
+                let rq: [u64; 3] = match (sl + 2 * sr + ti as u32) % 3 { 0 => [3, 20, 50], 1 => [10, 5, 31], _ => [11, 20, 1] };
+                let side = |mask: u32, qs: &[u64; 3]| -> Vec<(String, u64)> { (0..3).filter(|i| mask & (1 << i) != 0).map(|i| (names3[i].to_string(), qs[i])).collect() };
+                let a: Bundle = vec![(p.clone(), side(sl, &lq)), (q.clone(), vec![("78".into(), 5)])];
+                let b: Bundle = vec![(p.clone(), side(sr, &rq)), (q.clone(), vec![("78".into(), 2)])];
+                emit(&mut out, format!("val {} {}", show_bundle(9, &Some(a)), show_bundle(4, &Some(b))));
+            } }
+        }
+    }
     // structural relations: every base bundle with each of the 18 derived partners, in both operand orders
     for _ in 0..10 * scale {
         let nms = names(&mut r);
